@@ -16,8 +16,11 @@ the documentation of the types
 A *type description* (JSON, the thing cases are made of) is one of
 
   {"k": "fixed",  "bits": b, "int": i, "signed": 0|1, "via": ..., ["q": name]}
-  {"k": "po2",    "bits": b, "signed": 0|1, "max": null | c, "via": ...}
-        max = null  -> max_val_po2 = -1 (no cap);  c -> max_val_po2 = 2.0**c
+  {"k": "po2",    "bits": b, "signed": 0|1, "max": null | c, ["mv": v], "via": ...}
+        max = null  -> max_val_po2 = -1 (no cap);  c -> max_val_po2 = 2.0**c;
+        mv = v (with max = null) -> max_val_po2 = v, a number that is NOT a
+        power of two; the type then holds magnitudes up to 2^round(log2 v)
+        (the qkeras quantizers clip |x| to max_value and then round log2)
   {"k": "ternary", "via": ..., ["q": "ternary"|"stochastic_ternary"]}
   {"k": "binary",  "via": ..., ["q": "binary"|"stochastic_binary"]}
   {"k": "binary01","via": ..., ["q": "binary"|"bernoulli"]}
@@ -68,6 +71,15 @@ def ceil_log2(v):
   """smallest e with 2^e >= v (v > 0 Fraction)."""
   e = floor_log2(v)
   return e if p2(e) == v else e + 1
+
+
+def round_log2(v):
+  """round-to-nearest of log2(v) for a positive Fraction, decided exactly:
+  frac(log2 v) >= 1/2  <=>  v^2 >= 2^(2*floor+1)  (equality is impossible for
+  a rational v).  This is how quantized_po2 / quantized_relu_po2 apply a
+  max_value: |x| is clipped to max_value, then log2 is rounded."""
+  f = floor_log2(v)
+  return f + 1 if v * v >= p2(2 * f + 1) else f
 
 
 def dyadic_gcd(vals):
@@ -302,7 +314,9 @@ def po2_operand_lat(bits, signed, max_val):
   if max_val is not None and max_val != -1:
     if max_val <= 0:
       raise ValueError("po2 cap <= 0 holds no value")
-    emax = min(emax, floor_log2(Fr(max_val)))
+    # clip-then-round: the largest magnitude is 2^round(log2(max_val)); for a
+    # power-of-two cap this is the cap itself (decision (i))
+    emax = min(emax, round_log2(Fr(max_val)))
   return Po2Lat(signed, emin, emax)
 
 
@@ -328,8 +342,7 @@ def desc_lat(d):
   if k == "fixed":
     return FixedLat(d["bits"], d["int"], d["signed"])
   if k == "po2":
-    mv = None if d.get("max") is None else p2(d["max"])
-    return po2_operand_lat(d["bits"], d["signed"], mv)
+    return po2_operand_lat(d["bits"], d["signed"], desc_cap(d))
   if k == "ternary":
     return ternary_lat()
   if k == "binary":
@@ -339,6 +352,14 @@ def desc_lat(d):
   if k == "float":
     return FloatLat(d.get("bits", 32))
   raise ValueError("unknown type kind %r" % (k,))
+
+
+def desc_cap(d):
+  """max_val_po2 of a po2 description as a Fraction, None = no cap.
+  "max": c -> 2^c;  "mv": v -> the (non power-of-two) number v."""
+  if d.get("mv") is not None:
+    return Fr(d["mv"])
+  return None if d.get("max") is None else p2(d["max"])
 
 
 def desc_kind(d):
@@ -392,7 +413,8 @@ def build(d):
     if k == "po2":
       q = QI.PowerOfTwo(is_signed=True) if d["signed"] else QI.ReluPowerOfTwo()
       q.bits = q.int_bits = int(d["bits"])
-      q.max_val_po2 = -1 if d.get("max") is None else float(2.0 ** d["max"])
+      cap = desc_cap(d)
+      q.max_val_po2 = -1 if cap is None else float(cap)
       return q
     if k == "ternary":
       return QI.Ternary()
@@ -431,7 +453,7 @@ def build(d):
     else:
       raise ValueError(qn)
   elif k == "po2":
-    mv = None if d.get("max") is None else float(2.0 ** d["max"])
+    mv = None if desc_cap(d) is None else float(desc_cap(d))
     if d["signed"]:
       src = Q.quantized_po2(int(d["bits"]), max_value=mv)
     else:
